@@ -328,6 +328,12 @@ func (w *world) step(code, a, b, d int64) int64 {
 		}
 		w.c.PodGroupIndexer().Delete(o)
 		w.c.DeletePodGroup(o.(*sch.PodGroup))
+	case 13: // the informer's store drops the PodGroup; the delete handler has not run yet
+		if o, ok, _ := w.c.PodGroupIndexer().GetByKey(fmt.Sprintf("ns/pg%d", a)); ok {
+			w.c.PodGroupIndexer().Delete(o)
+		}
+	case 14: // ... now the delete handler runs (the object comes with the notification)
+		w.c.DeletePodGroup(mkPG(a, b, 1))
 	case 6:
 		_, err := qs.Create(ctx, mkQueue(a, b, 0, 0), metav1.CreateOptions{})
 		if err != nil && !apierrors.IsAlreadyExists(err) {
@@ -481,6 +487,7 @@ func laws(sel int, in, got []int64, law func(lsel int, lin []int64, sig string))
 		law(142, lin, "") // an open child under a closed parent that is NOT of the known class
 		law(143, lin, sigStuckChild)
 		law(144, lin, sigOpenChild)
+		law(145, lin, "") // end state: no queue left Closing without a PodGroup
 	}
 	if sel == 3 { // PodGroup events before the queue is listed: laws against the PodGroups that really exist
 		law(131, lin, "")
@@ -755,6 +762,7 @@ func genQuiescent(r *vh.Rng, i int) (in []int64, desc map[string]any) {
 	ne := 0
 	add := func(c, a, b, d int64) { evs = append(evs, c, a, b, d); ne++ }
 	var qs []q
+	var pgs, ix []int64
 	shape := "random"
 	C := func(x, a int64) { add(1, x, a, 0) }
 	P := func(k int64) { add(11, k, 0, 0) }
@@ -803,6 +811,27 @@ func genQuiescent(r *vh.Rng, i int) (in []int64, desc map[string]any) {
 				}
 				all()
 			}
+		}
+	case 4: // a Closing queue whose last PodGroup disappears: the store drops it, a sync of the queue runs
+		// (it only forgets the key and stays Closing), THEN the delete handler runs and its sync closes the queue
+		shape = "last-podgroup-gone-before-delete-handler"
+		qs = []q{{1, 0, 1, 0}, {2, 1, 3, vh.Pick(r, []int64{0, 4})}}
+		npg := r.Range(1, 2)
+		for g := 1; g <= npg; g++ {
+			pgs = append(pgs, int64(g), 2, int64(r.Range(1, 5)))
+			ix = append(ix, 2, int64(g))
+		}
+		for g := 1; g <= npg; g++ {
+			add(13, int64(g), 0, 0)
+		}
+		if r.Chance(1, 2) {
+			add(10, 2, 0, 0) // a sync of q2 (informer add notification) ...
+		} else {
+			C(2, 3) // ... or a command with the Sync action
+		}
+		P(0)
+		for g := 1; g <= npg; g++ {
+			add(14, int64(g), 2, 0)
 		}
 	case 5: // the REPAIRED race C: parent closed and re-opened before the lister shows the child's marker;
 		// since b628b4b the delivery of the marker re-syncs the child: no quiescent failure is expected
@@ -926,7 +955,11 @@ func genQuiescent(r *vh.Rng, i int) (in []int64, desc map[string]any) {
 			in = append(in, x.id, x.parent, x.state, x.ann)
 		}
 	}
-	in = append(in, 0, 0, 0, int64(ne))
+	in = append(in, int64(len(pgs)/3))
+	in = append(in, pgs...)
+	in = append(in, int64(len(ix)/2))
+	in = append(in, ix...)
+	in = append(in, 0, int64(ne))
 	in = append(in, evs...)
 	return in, map[string]any{"shape": shape, "queues": len(qs), "events": ne}
 }
